@@ -143,6 +143,9 @@ func (r *Run) enterBlock(st *State, fr *Frame, to *ssa.BasicBlock) bool {
 	if li := loopAt(fr.Fn, to); li != nil {
 		back := from != nil && li.Blocks[from] && to.Dominates(from)
 		invs := r.loopInvariants(fr.Fn, li.Ordinal)
+		if r.ownClausesOff(st, fr) {
+			invs = nil
+		}
 		outer := r.outerLoopInvariants(st, fr, li.Ordinal)
 		fname := e.fnName[fr.Fn]
 		if back {
@@ -251,9 +254,23 @@ func (r *Run) outerLoopInvariants(st *State, fr *Frame, ord int) []outerInv {
 
 // pendingDeferClauses: `loop N pending-defer CELL : cond` — a defer statement inside loop N that is
 // executed at most once (guarded); at the loop head a call of the function held in CELL is pending iff cond.
+// ownClausesOff: a function marked `inline` that is being inlined into a caller: the loop / call-site
+// clauses of its own block belong to its stand-alone verification and are not applied here (the caller
+// supplies qualified clauses instead).
+func (r *Run) ownClausesOff(st *State, fr *Frame) bool {
+	if len(st.Frames) == 0 || st.Frames[0] == fr {
+		return false
+	}
+	b := r.e.cs.Funcs[r.e.fnName[fr.Fn]]
+	return b != nil && b.First("inline") != nil
+}
+
 func (r *Run) pendingDeferClauses(fn *ssa.Function, ord int) []*Clause {
 	b := r.e.cs.Funcs[r.e.fnName[fn]]
 	if b == nil {
+		return nil
+	}
+	if r.fn != fn && b.First("inline") != nil {
 		return nil
 	}
 	var out []*Clause
@@ -448,7 +465,7 @@ func (r *Run) havocLoop(st *State, fr *Frame, li *LoopInfo) {
 		st.Counters[k] = nv
 	}
 	for k := range st.Ghost {
-		if strings.HasPrefix(k, "arg:") || strings.HasPrefix(k, "res:") || k == "rand.last" || strings.HasPrefix(k, "lastsent:") || strings.HasPrefix(k, "lastrecv:") {
+		if strings.HasPrefix(k, "arg:") || strings.HasPrefix(k, "res:") || k == "rand.last" || strings.HasPrefix(k, "lastsent:") || strings.HasPrefix(k, "lastrecv:") || strings.HasPrefix(k, "ires:") {
 			delete(st.Ghost, k)
 		}
 		if strings.HasPrefix(k, "ctxerr.last:") && (regions["ctxerr.last"] || all) {
@@ -876,6 +893,20 @@ func (r *Run) newObject(st *State, t types.Type, hint string) T {
 		}
 	}
 	st.Fresh = append(st.Fresh, ref)
+	// a new object is not yet a key of any map
+	var mapRegs []string
+	for rn, m := range e.regions {
+		if strings.HasPrefix(rn, "map:") && strings.HasSuffix(rn, ".has") && len(m.Args) == 2 && m.Args[1] == SRef {
+			mapRegs = append(mapRegs, rn)
+		}
+	}
+	sort.Strings(mapRegs)
+	for _, rn := range mapRegs {
+		if sym, ok := st.Heap[rn]; ok {
+			m := T{"m!q", SRef}
+			st.assume(Forall([]T{m}, []T{App(SBool, sym, m, ref)}, Not(App(SBool, sym, m, ref))))
+		}
+	}
 	switch typeKey(t) {
 	case "sync.Once":
 		e.region(st, "once.done", []Sort{SRef}, SBool)
